@@ -178,6 +178,10 @@ Definition plain (s : list Z) : bool :=
   negb (class_A s) && negb (class_B s) && negb (class_C s) && negb (class_D s).
 
 (* the sub-class of `plain` for which the refinement proof is carried out: at most one
-   leading separator and no element ending in ".." (so no "..", no "...", no "a..") *)
+   leading separator and no field (text between separators) ending in ".." -- so no "..",
+   no "...", no "a.." anywhere; classes B, C, D are then empty as well *)
 Definition no_dotdot_tail (s : list Z) : bool :=
-  negb (class_A s) && forallb (fun e => negb (ends_dotdot e)) (elems s).
+  negb (class_A s) && forallb (fun e => negb (ends_dotdot e)) (fields s).
+
+(* a C string has no NUL byte *)
+Definition c_string (s : list Z) : Prop := Forall (fun c => c <> 0) s.
